@@ -322,15 +322,10 @@ Section Loops.
     | O, true =>
       let '(o, e1, s) := elsef e in
       match s with
-      | SNone | SLazy | SBrk | SCont | SExit =>
-        (* a control instruction inside for-else is reported as an error by the loop *)
-        match s with
-        | SNone => (acc ++ o, set_ebrk (Z.max (e_brk e1) saved) e1, SNone)
-        | SExit => (acc ++ o, e1, SErr EInterrupt)
-        | SBrk => (acc ++ o, e1, SErr EBreak)
-        | SLazy => (acc ++ o, e1, SErr ELBreak)
-        | _ => (acc ++ o, e1, SErr ECont)
-        end
+      | SNone => (acc ++ o, set_ebrk (Z.max (e_brk e1) saved) e1, SNone)
+      (* a control instruction in the else branch is not inside this loop (which has ended): it
+         names the loops that enclose this one, and is handed to them unchanged; at the top level
+         of a template the render reports it like any control instruction outside a loop *)
       | x => (acc ++ o, e1, x)
       end
     | _, _ => (acc, e, SNone)
